@@ -211,7 +211,7 @@ def run(rep, tier, seed, replay_file=None):
     t0 = time.time()
     n = 60 if quick else 700
     shards = _w(8 if quick else 12)
-    kinds = ["map", "atomic", "sync", "once", "casduel", "onceduel", "rangeduel", "mapduel"]
+    kinds = ["map", "atomic", "sync", "once", "acc", "casduel", "onceduel", "rangeduel", "mapduel"]
     hists = {k: [] for k in kinds}
     trials = {}
     with cf.ThreadPoolExecutor(max_workers=shards) as ex:
@@ -264,11 +264,12 @@ def run(rep, tier, seed, replay_file=None):
     rep.cov["violation_keys_reported"] = keys
 
     rep.cov["rule"] = (
-        "behaviours = call sequences of AdtSeq per component (atomic, sync, once+Mnemonize, map with its Default pool, pool, "
+        "behaviours = call sequences of AdtSeq per component (atomic, sync + the AccessorsWithLock pairs, once+Mnemonize, map with its Default pool, pool, "
         "value-typed pools incl. MakeBytesBufferPool / MakeBufferPool): every sequence to the depth in the run notes, one shortest "
         "behaviour per edge of the abstract state graph (sampled where noted), random walks; each replayed on the real types with "
         "comparison of the return value, of the constructor / cleanup-hook calls, and of the projected state (Get/Load, Len, "
         "Load+Check of every key with object identity and clean count, Called/Defined/cached value) after every call; "
         "non-trivial = at least 2 calls of at least 2 different operations; histories = concurrent runs of 2-4 goroutines on a real "
-        "Map / Atomic / Synchronized / Once (plus CompareAndSwap and Do-vs-Set duels, deduplicated by event sequence) validated by "
+        "Map / Atomic / Synchronized / accessor pair / Once (plus CompareAndSwap / Swap, EnsureStore, Range-vs-writers and Do-vs-Set duels, "
+        "deduplicated by event sequence) validated by "
         "AdtLinTrace; models = OnceImpl, PoolImpl exhaustive")
